@@ -795,3 +795,107 @@ Proof.
   cbn [length Nat.eqb Nat.sub repeat app]. cbn [CapDefs.wlen CapDefs.newbuf fst length Z.of_nat] in E.
   rewrite E, M. reflexivity.
 Qed.
+
+(* ------------------------------------------------------------------ composed with the capacity theorem *)
+(* a C string as chars, with its terminator *)
+Definition cstr_cells (out : bytes) : list val := map cell out ++ [VInt 0].
+
+Lemma bind_Ok {A B} (e : CapDefs.res A) (f : A -> CapDefs.res B) r :
+  CapDefs.bind e f = CapDefs.Ok r -> exists a, e = CapDefs.Ok a /\ f a = CapDefs.Ok r.
+Proof. destruct e; cbn; try discriminate. eauto. Qed.
+Ltac binv H := repeat (apply bind_Ok in H; let a := fresh "a" in let E := fresh "E" in destruct H as (a & E & H)).
+
+Lemma ex_loc_term s i w0 i' w : CapDefs.ex_loc s i w0 = CapDefs.Ok (i', w) -> exists r, fst w = 0%N :: r.
+Proof.
+  unfold CapDefs.ex_loc. intro H. binv H. injection H as _ <-.
+  match goal with E : CapDefs.wr _ _ = _ |- _ => destruct (wr_inv _ _ _ E) as (F & _) end. eauto.
+Qed.
+Lemma ex_cmd_term s i w0 i' w : CapDefs.ex_cmd s i w0 = CapDefs.Ok (i', w) -> exists r, fst w = 0%N :: r.
+Proof.
+  unfold CapDefs.ex_cmd. intro H. binv H. injection H as _ <-.
+  match goal with E : CapDefs.wr _ _ = _ |- _ => destruct (wr_inv _ _ _ E) as (F & _) end. eauto.
+Qed.
+Lemma ex_arg_term s i w0 c0 c1 i' w : CapDefs.ex_arg s i w0 c0 c1 = CapDefs.Ok (i', w) -> exists r, fst w = 0%N :: r.
+Proof.
+  unfold CapDefs.ex_arg. cbv zeta. intro H. binv H. injection H as _ <-.
+  match goal with E : CapDefs.wr _ _ = _ |- _ => destruct (wr_inv _ _ _ E) as (F & _) end. eauto.
+Qed.
+
+Lemma dblock_wstr w blk : (exists r, fst w = 0%N :: r) ->
+  dblock w blk = cstr_cells (CapDefs.wstr w) ++ skipn (S (length (CapDefs.wstr w))) blk.
+Proof.
+  intros (r & F). unfold dblock, wcells, cstr_cells, CapDefs.wstr, CapDefs.wlen. rewrite F. cbn [rev length].
+  rewrite map_app, rev_length. reflexivity.
+Qed.
+
+Lemma len_excap (blk : block) : Z.of_nat (length blk) = EXLEN -> length blk = CapDefs.excap.
+Proof. intro H. apply Nat2Z.inj. rewrite H. symmetry. apply CapProps.excap_EXLEN. Qed.
+
+(* for every command line shorter than EXLEN in one block, from any position, and a destination block of
+   exactly EXLEN cells: the call returns (so every load was inside the line and its terminator, every
+   store inside the destination), the pointer returned is src + the model's count, and the destination
+   holds the model's output as a C string in front of its untouched rest *)
+Theorem ex_loc_safe m bs bd s blk i d fuel :
+  str_at m bs s -> bytes_lt256 s -> nth_error m bd = Some blk -> Z.of_nat (length blk) = EXLEN -> bs <> bd ->
+  nth_error m G_exloc = Some gb_exloc -> G_exloc <> bd ->
+  Z.of_nat (length s) < EXLEN -> (i <= length s)%nat -> (2 * S (length s) <= fuel)%nat ->
+  exists i' w, CapDefs.ex_loc s i (CapDefs.newbuf CapDefs.excap) = CapDefs.Ok (i', w) /\
+    callf cprog fuel (S d) F_ex_loc [VPtr bs (Z.of_nat i); VPtr bd 0] m
+    = Ok (VPtr bs (Z.of_nat i'), upd m bd (cstr_cells (CapDefs.wstr w) ++ skipn (S (length (CapDefs.wstr w))) blk)) /\
+    (i <= i')%nat /\ (i' <= length s)%nat /\ (length (CapDefs.wstr w) <= i' - i)%nat /\
+    (length (CapDefs.wstr w) < length blk)%nat.
+Proof.
+  intros Hs H256 Hd Hlen Hne Hlit Hg Hln Hi Hf. pose proof (len_excap blk Hlen) as Hcap.
+  destruct (CapProps.ex_parts_fit s i 0%N 0%N Hln Hi) as ((i' & w & E & L1 & L2 & L3 & L4) & _).
+  exists i', w. split; [exact E|]. rewrite <- Hcap in E.
+  rewrite (tr_ex_loc m bs bd s blk i i' w d fuel Hs H256 Hd Hne Hlit Hg E Hf).
+  rewrite (dblock_wstr w blk (ex_loc_term _ _ _ _ _ E)).
+  pose proof (CapProps.wstr_length w) as WL. destruct (ex_loc_term _ _ _ _ _ E) as (r & F).
+  assert (CapDefs.wlen w = S (length r)) as WL2 by (unfold CapDefs.wlen; rewrite F; reflexivity).
+  repeat split; try assumption; lia.
+Qed.
+
+Theorem ex_cmd_safe m bs bd s blk i d fuel :
+  str_at m bs s -> bytes_lt256 s -> nth_error m bd = Some blk -> Z.of_nat (length blk) = EXLEN -> bs <> bd ->
+  Z.of_nat (length s) < EXLEN -> (i <= length s)%nat -> (S (length s) <= fuel)%nat ->
+  exists i' w, CapDefs.ex_cmd s i (CapDefs.newbuf CapDefs.excap) = CapDefs.Ok (i', w) /\
+    callf cprog fuel (S d) F_ex_cmd [VPtr bs (Z.of_nat i); VPtr bd 0] m
+    = Ok (VPtr bs (Z.of_nat i'), upd m bd (cstr_cells (CapDefs.wstr w) ++ skipn (S (length (CapDefs.wstr w))) blk)) /\
+    (i <= i')%nat /\ (i' <= length s)%nat /\ (length (CapDefs.wstr w) <= i' - i)%nat /\
+    (length (CapDefs.wstr w) <= 17)%nat.
+Proof.
+  intros Hs H256 Hd Hlen Hne Hln Hi Hf. pose proof (len_excap blk Hlen) as Hcap.
+  destruct (CapProps.ex_parts_fit s i 0%N 0%N Hln Hi) as (_ & (i' & w & E & L1 & L2 & L3 & L4 & L5) & _).
+  exists i', w. split; [exact E|]. rewrite <- Hcap in E.
+  rewrite (tr_ex_cmd m bs bd s blk i i' w d fuel Hs H256 Hd Hne E Hf).
+  rewrite (dblock_wstr w blk (ex_cmd_term _ _ _ _ _ E)).
+  pose proof (CapProps.wstr_length w) as WL. destruct (ex_cmd_term _ _ _ _ _ E) as (r & F).
+  assert (CapDefs.wlen w = S (length r)) as WL2 by (unfold CapDefs.wlen; rewrite F; reflexivity).
+  repeat split; try assumption; lia.
+Qed.
+
+Theorem ex_arg_safe m bs bd be s e blk i d fuel :
+  str_at m bs s -> bytes_lt256 s -> nth_error m bd = Some blk -> Z.of_nat (length blk) = EXLEN -> bs <> bd ->
+  str_at m be e -> bytes_lt256 e -> be <> bd ->
+  Z.of_nat (length s) < EXLEN -> (i <= length s)%nat -> (S (length s) <= fuel)%nat ->
+  exists i' w, CapDefs.ex_arg s i (CapDefs.newbuf CapDefs.excap) (CapDefs.ch0 e) (CapDefs.ch1 e) = CapDefs.Ok (i', w) /\
+    callf cprog fuel (S d) F_ex_arg [VPtr bs (Z.of_nat i); VPtr bd 0; VPtr be 0] m
+    = Ok (VPtr bs (Z.of_nat i'), upd m bd (cstr_cells (CapDefs.wstr w) ++ skipn (S (length (CapDefs.wstr w))) blk)) /\
+    (i <= i')%nat /\ (i' <= length s)%nat /\ (length (CapDefs.wstr w) <= i' - i)%nat /\
+    (length (CapDefs.wstr w) < length blk)%nat.
+Proof.
+  intros Hs H256 Hd Hlen Hne He He256 Hbe Hln Hi Hf. pose proof (len_excap blk Hlen) as Hcap.
+  destruct (CapProps.ex_parts_fit s i (CapDefs.ch0 e) (CapDefs.ch1 e) Hln Hi) as (_ & _ & (i' & w & E & L1 & L2 & L3 & L4)).
+  exists i', w. split; [exact E|]. rewrite <- Hcap in E.
+  rewrite (tr_ex_arg m bs bd be s e blk i i' w d fuel Hs H256 Hd Hne He He256 Hbe E Hf).
+  rewrite (dblock_wstr w blk (ex_arg_term _ _ _ _ _ _ _ E)).
+  pose proof (CapProps.wstr_length w) as WL. destruct (ex_arg_term _ _ _ _ _ _ _ E) as (r & F).
+  assert (CapDefs.wlen w = S (length r)) as WL2 by (unfold CapDefs.wlen; rewrite F; reflexivity).
+  repeat split; try assumption; lia.
+Qed.
+
+(* reading a C string back from a block (for the examples that RUN the translated functions) *)
+Fixpoint cells_to_nul (l : list val) : list Z :=
+  match l with VInt 0 :: _ => [] | VInt z :: r => z :: cells_to_nul r | _ => [] end.
+Definition str_of (m : mem) (b : nat) : list Z :=
+  match nth_error m b with Some l => cells_to_nul l | None => [] end.
